@@ -332,6 +332,16 @@ class ParseContext:
 
     return _INVERSE_REGISTRY[fn_or_cls]
 
+  def resolves(self, selector):
+    """Whether `selector` names an object through this context's imports."""
+    if not self._dynamic_registration:
+      return False
+    try:
+      self._resolve_selector(selector)
+    except (NameError, AttributeError):
+      return False
+    return True
+
   def get_configurable(self, selector):
     """Get a configurable matching the given `selector`."""
     if self._dynamic_registration:
@@ -863,6 +873,10 @@ def _should_skip(selector, skip_unknown):
   _validate_skip_unknown(skip_unknown)
   if _REGISTRY.matching_selectors(selector):
     return False  # Never skip known configurables.
+  if skip_unknown and _parse_context().resolves(selector):
+    # With dynamic registration, a name provided by the file's imports is known
+    # even if nothing has registered it yet.
+    return False
   if isinstance(skip_unknown, (list, tuple, set)):
     return selector in skip_unknown
   return skip_unknown  # Must be a bool by validation check.
